@@ -1006,7 +1006,7 @@ func (r *c17Run) do(line string) c17Out {
 
 func runC17(c *fw.Ctx) {
 	res := c.Res
-	res.Rule = "pure: every rhp/v4 constructor/cost function on (a) arbitrary 128-bit/64-bit field values weighted to 0, 2^64+-2, 2^128-3.., sector multiples (translator self-test incl. panics) and (b) structured cases: consensus-valid contracts x valid requests with exact-balance, one-short, zero-price, max-batch and max-height boundaries; a case is non-trivial when the request is valid (pay: cost>0); distinct by op line. sequences: random walks of append/free/roots/fund/replenish/renew/refresh(full,partial) from NewContract, each step judged. e2e: real signed v2 transactions (formation, revisions, renewal/refresh) on a mined chain judged by ValidateV2Transaction+ValidateBlock, with exact funding by the cost functions; the same transactions and single-rule mutations compared with the hand model Sia.Ledger.validate*. v1: taxAdjustedPayout via rhp/v2+v3 PrepareContractFormation/Renewal against the consensus tax equation; rhp1c lines: rhp/v2 formation/host payouts/renewal/collateral, rhp/v3 renewal costs/host payouts/renewal and PayByContract (exact-balance, one-short, malformed output lists) vs generated+hand model and the statement; e2e-v1: formation, PayByContract revisions, v2/v3-style renewals as signed v1 transactions through ValidateTransaction+ValidateBlock on chain.NewSim(v1)."
+	res.Rule = "pure: every rhp/v4 constructor/cost function on (a) arbitrary 128-bit/64-bit field values weighted to 0, 2^64+-2, 2^128-3.., sector multiples (translator self-test incl. panics) and (b) structured cases: consensus-valid contracts x valid requests with exact-balance, one-short, zero-price, max-batch and max-height boundaries; a case is non-trivial when the request is valid (pay: cost>0); distinct by op line. sequences: random walks of append/free/roots/fund/replenish/renew/refresh(full,partial) from NewContract, each step judged. e2e: real signed v2 transactions (formation, revisions, renewal/refresh) on a mined chain judged by ValidateV2Transaction+ValidateBlock, with exact funding by the cost functions; the same transactions and single-rule mutations compared with the hand model Sia.Ledger.validate*. v1: taxAdjustedPayout via rhp/v2+v3 PrepareContractFormation/Renewal against the consensus tax equation; rhp1c lines: rhp/v2 formation/host payouts/renewal/collateral, rhp/v3 renewal costs/host payouts/renewal and PayByContract (exact-balance, one-short, malformed output lists) vs generated+hand model and the statement; requests: real rhp/v4 request objects around every boundary of their Validate (indices n-1/n/n+1, counts 0/1/max/max+1, heights/durations/allowance/collateral limits, empty contract, all sectors freed) through the real Validate (vs the Lean model, op rhp4v); accepted requests must make the constructor behave (no panic, totals kept, filesize = 4MiB x sectors after, no wrap) and, on a real chain, be accepted by ValidateV2Transaction. e2e-v1: formation, PayByContract revisions, v2/v3-style renewals as signed v1 transactions through ValidateTransaction+ValidateBlock on chain.NewSim(v1)."
 	if c.Replay != "" {
 		c17Replay(c)
 		return
@@ -1082,6 +1082,7 @@ func runC17(c *fw.Ctx) {
 	c17V1(c)
 	c17V1Contracts(c)
 	c17E2E(c)
+	c17Requests(c)
 }
 
 // c17Sequence: NewContract, then a random walk of valid requests; each step's
@@ -1235,6 +1236,8 @@ func c17Replay(c *fw.Ctx) {
 		c17V1(c)
 	case "e2e-v1":
 		c17V1Contracts(c)
+	case "req":
+		c17Requests(c)
 	default: // e2e cases are replayed by re-running the e2e part with the recorded seed
 		c17E2E(c)
 	}
